@@ -2,6 +2,7 @@ package smt
 
 import (
 	"bufio"
+	"os"
 	"fmt"
 	"io"
 	"os/exec"
@@ -51,6 +52,25 @@ type Solver struct {
 	TDefine, TWait, TModel time.Duration
 	stack     []*Term   // assertions currently on the solver's assertion stack, one level each
 	Incremental bool
+	Assuming    bool
+	indic       map[int]bool
+}
+
+// indicator returns the name of a Boolean constant equivalent to the Bool term t,
+// asserted once at the base level, for use in check-sat-assuming.
+func (s *Solver) indicator(t *Term) string {
+	if t.Op == OpVar {
+		return t.Name
+	}
+	name := "a" + strconv.Itoa(t.id)
+	if s.indic == nil {
+		s.indic = map[int]bool{}
+	}
+	if !s.indic[t.id] {
+		s.indic[t.id] = true
+		s.send("(declare-const " + name + " Bool)\n(assert (= " + name + " " + s.ref(t) + "))\n")
+	}
+	return name
 }
 
 func NewSolver(kind string, ctx *Ctx, timeoutMS int) (*Solver, error) {
@@ -87,6 +107,7 @@ func NewSolver(kind string, ctx *Ctx, timeoutMS int) (*Solver, error) {
 	s.send("(set-option :global-declarations true)\n")
 	s.send("(set-logic QF_BV)\n")
 	s.Incremental = true
+	s.Assuming = os.Getenv("SYMGO_ASSUME") != ""
 	return s, nil
 }
 
@@ -218,6 +239,7 @@ func (s *Solver) Check(asserts []*Term, wantModel bool) (Result, []uint64) {
 		}
 	}
 	td := time.Now()
+	assumeCmd := ""
 	for _, a := range asserts {
 		s.define(a)
 	}
@@ -226,7 +248,19 @@ func (s *Solver) Check(asserts []*Term, wantModel bool) (Result, []uint64) {
 			s.define(v)
 		}
 	}
-	if s.Incremental {
+	if s.Assuming {
+		var b strings.Builder
+		b.WriteString("(check-sat-assuming (")
+		for _, a := range asserts {
+			if a.Op == OpConst {
+				continue
+			}
+			b.WriteString(s.indicator(a))
+			b.WriteString(" ")
+		}
+		b.WriteString("))\n")
+		assumeCmd = b.String()
+	} else if s.Incremental {
 		// keep the common prefix of the previous query on the assertion stack
 		k := 0
 		for k < len(s.stack) && k < len(asserts)-1 && s.stack[k] == asserts[k] {
@@ -253,7 +287,11 @@ func (s *Solver) Check(asserts []*Term, wantModel bool) (Result, []uint64) {
 			s.send("(assert " + s.ref(a) + ")\n")
 		}
 	}
-	s.send("(check-sat)\n")
+	if s.Assuming {
+		s.send(assumeCmd)
+	} else {
+		s.send("(check-sat)\n")
+	}
 	s.in.Flush()
 	s.TDefine += time.Since(td)
 	tw := time.Now()
@@ -303,8 +341,10 @@ func (s *Solver) Check(asserts []*Term, wantModel bool) (Result, []uint64) {
 		txt := s.readSexp()
 		parseModel(txt, s.ctx, model)
 	}
-	s.send("(pop 1)\n")
-	s.in.Flush()
+	if !s.Assuming {
+		s.send("(pop 1)\n")
+		s.in.Flush()
+	}
 	switch res {
 	case Sat:
 		s.SatN++
